@@ -1,6 +1,6 @@
 """Contracts for goodwe/modbus.py (properties C01, C02, C03, C07, C08)."""
 from pyvc.spec import *
-from pyvc.contracts import contract
+from pyvc.api import contract
 from goodwe.exceptions import PartialResponseException, RequestRejectedException
 
 # ---- specification vocabulary -------------------------------------------------------------------------------------
@@ -50,9 +50,19 @@ def exc_frame_tcp(B, cmd):
     return len(B) >= 9 and B[7] == cmd + 128
 
 
+def fragment_rtu(B, cmd, value):
+    """proper prefix (header complete) of a read answer announcing 2*value payload bytes"""
+    return cmd == 3 and len(B) >= 5 and B[3] == 3 and B[4] == 2 * value and len(B) < B[4] + 7
+
+
+def fragment_tcp(B, cmd, value):
+    return cmd == 3 and len(B) >= 9 and B[7] == 3 and B[8] == 2 * value and len(B) < B[8] + 9
+
+
 # ---- _modbus_checksum ------------------------------------------------------------------------------------------------
 @contract("goodwe.modbus._modbus_checksum")
 class ModbusChecksum:
+    props = ("C01", "C02", "C03")
     args = {"data": "bytes"}
     returns = "int"
     pure = True
@@ -73,6 +83,14 @@ class ModbusChecksum:
 
     bv_body = (0,)
 
+    def bv_replay(w):
+        """a refuted step lemma (crc, ch): every 16-bit state is reached by some 2-byte prefix"""
+        for a in range(256):
+            for b in range(256):
+                if CRC16(bytes([a, b])) == w["crc"]:
+                    return [{"data": bytes([a, b, w["ch"]])}]
+        return []
+
     def samples():
         return [(b"",), (b"\x00",), (bytes(range(256)),), (b"\xf7\x03\x88\xb8\x00\x21",), (b"\xff" * 300,)]
 
@@ -84,8 +102,31 @@ def _rtu_frame(cmd, payload):
     return b"\xaa\x55" + body + bytes([c & 0xFF, c >> 8])
 
 
+def _fix_crc_rtu(data):
+    """candidate repairs of a solver witness: put the real CRC where the frame's own header says it belongs"""
+    out = []
+    d = bytearray(data)
+    n = len(d)
+    places = []
+    if n >= 5:
+        if d[3] == 3:
+            places.append(d[4] + 5)
+        if d[3] in (6, 16):
+            places.append(8)
+        places.append(n - 2)
+    for p in places:
+        if 2 <= p and p + 2 <= n:
+            e = bytearray(d)
+            c = CRC16(bytes(e[2:p]))
+            e[p] = c & 0xFF
+            e[p + 1] = c >> 8
+            out.append(bytes(e))
+    return out
+
+
 @contract("goodwe.modbus.validate_modbus_rtu_response")
 class ValidateRtu:
+    props = ("C01",)
     args = {"data": "bytes", "cmd": "int", "offset": "int", "value": "int"}
     returns = "bool"
     pure = True
@@ -95,15 +136,33 @@ class ValidateRtu:
     def requires(data, cmd, offset, value):
         return domain(cmd, offset, value)
 
-    def ensures_accept_iff_wellformed(data, cmd, offset, value, result):
-        return (result is True or result is False) and (result == wf_rtu(data, cmd, offset, value))
+    def ensures_C01_accept_implies_wellformed(data, cmd, offset, value, result):
+        return (result is True or result is False) and (not result or wf_rtu(data, cmd, offset, value))
 
-    def raises_PartialResponseException__fragment(data, cmd, offset, value, raised):
+    def ensures_C02_wellformed_implies_accept(data, cmd, offset, value, result):
+        return result or not wf_rtu(data, cmd, offset, value)
+
+    def ensures_C07_fragment_is_partial(data, cmd, offset, value, result):
+        return not fragment_rtu(data, cmd, value)
+
+    def ensures_C08_exception_frame_is_rejected(data, cmd, offset, value, result):
+        return not exc_frame_rtu(data, cmd)
+
+    def raises_PartialResponseException__C07_fragment(data, cmd, offset, value, raised):
         return (len(data) >= 5 and data[3] == 3 and data[4] == 2 * value
                 and raised.length == len(data) and raised.expected == data[4] + 7 and raised.expected > len(data))
 
-    def raises_RequestRejectedException__reason(data, cmd, offset, value, raised):
+    def raises_PartialResponseException__C02_C08_not_a_complete_frame(data, cmd, offset, value, raised):
+        return not wf_rtu(data, cmd, offset, value) and not exc_frame_rtu(data, cmd)
+
+    def raises_RequestRejectedException__C08_reason(data, cmd, offset, value, raised):
         return len(data) >= 5 and data[3] != cmd and reason_ok(data[4], raised.message)
+
+    def raises_RequestRejectedException__C02_C07_not_wellformed(data, cmd, offset, value, raised):
+        return not wf_rtu(data, cmd, offset, value) and not fragment_rtu(data, cmd, value)
+
+    def repair(args):
+        return [dict(args, data=d) for d in _fix_crc_rtu(args["data"])]
 
     def samples():
         rd = _rtu_frame(3, b"\x04\x01\x02\x03\x04")
@@ -121,6 +180,7 @@ class ValidateRtu:
 
 @contract("goodwe.modbus.validate_modbus_tcp_response")
 class ValidateTcp:
+    props = ("C01",)
     args = {"data": "bytes", "cmd": "int", "offset": "int", "value": "int"}
     returns = "bool"
     pure = True
@@ -130,15 +190,30 @@ class ValidateTcp:
     def requires(data, cmd, offset, value):
         return domain(cmd, offset, value)
 
-    def ensures_accept_iff_wellformed(data, cmd, offset, value, result):
-        return (result is True or result is False) and (result == wf_tcp(data, cmd, offset, value))
+    def ensures_C01_accept_implies_wellformed(data, cmd, offset, value, result):
+        return (result is True or result is False) and (not result or wf_tcp(data, cmd, offset, value))
 
-    def raises_PartialResponseException__fragment(data, cmd, offset, value, raised):
+    def ensures_C02_wellformed_implies_accept(data, cmd, offset, value, result):
+        return result or not wf_tcp(data, cmd, offset, value)
+
+    def ensures_C07_fragment_is_partial(data, cmd, offset, value, result):
+        return not fragment_tcp(data, cmd, value)
+
+    def ensures_C08_exception_frame_is_rejected(data, cmd, offset, value, result):
+        return not exc_frame_tcp(data, cmd)
+
+    def raises_PartialResponseException__C07_fragment(data, cmd, offset, value, raised):
         return (len(data) >= 9 and data[7] == 3
                 and raised.length == len(data) and raised.expected == data[8] + 9 and raised.expected > len(data))
 
-    def raises_RequestRejectedException__reason(data, cmd, offset, value, raised):
+    def raises_PartialResponseException__C02_C08_not_a_complete_frame(data, cmd, offset, value, raised):
+        return not wf_tcp(data, cmd, offset, value) and not exc_frame_tcp(data, cmd)
+
+    def raises_RequestRejectedException__C08_reason(data, cmd, offset, value, raised):
         return len(data) >= 9 and data[7] != cmd and reason_ok(data[8], raised.message)
+
+    def raises_RequestRejectedException__C02_C07_not_wellformed(data, cmd, offset, value, raised):
+        return not wf_tcp(data, cmd, offset, value) and not fragment_tcp(data, cmd, value)
 
     def samples():
         rd = bytes.fromhex("000100000007f70304") + b"\x01\x02\x03\x04"
@@ -151,3 +226,99 @@ class ValidateTcp:
             for k in range(len(f)):
                 out.append((f[:k],) + a)
         return out
+
+
+# ---- request encoders (C03) ----------------------------------------------------------------------------------------------
+def enc_domain(comm_addr, cmd, offset, value):
+    return 0 <= comm_addr <= 255 and domain(cmd, offset, value)
+
+
+def multi_domain(comm_addr, cmd, offset, values):
+    return (0 <= comm_addr <= 255 and cmd == 16 and 0 <= offset <= 0xFFFF and is_bytes(values)
+            and 2 <= len(values) <= 246 and len(values) % 2 == 0)
+
+
+@contract("goodwe.modbus.create_modbus_rtu_request")
+class CreateRtu:
+    props = ("C03",)
+    args = {"comm_addr": "int", "cmd": "int", "offset": "int", "value": "int"}
+    returns = "bytes"
+    pure = True
+    raises_only = ()
+
+    def requires(comm_addr, cmd, offset, value):
+        return enc_domain(comm_addr, cmd, offset, value)
+
+    def ensures_C03_decodes_back(comm_addr, cmd, offset, value, result):
+        return (len(result) == 8 and result[0] == comm_addr and result[1] == cmd
+                and be16(result[2:4]) == offset and be16(result[4:6]) == value % 65536
+                and sbe16(result[4:6]) == value - (65536 if value >= 32768 else 0)
+                and result[6] + 256 * result[7] == CRC16(result[0:6]))
+
+    def samples():
+        return [(0xf7, 3, 0x88b8, 0x21), (0xf7, 6, 0xb798, -2), (0, 6, 0, -32768), (255, 16, 65535, 32767),
+                (1, 3, 1, 125)]
+
+
+@contract("goodwe.modbus.create_modbus_tcp_request")
+class CreateTcp:
+    props = ("C03",)
+    args = {"comm_addr": "int", "cmd": "int", "offset": "int", "value": "int"}
+    returns = "bytes"
+    pure = True
+    raises_only = ()
+
+    def requires(comm_addr, cmd, offset, value):
+        return enc_domain(comm_addr, cmd, offset, value)
+
+    def ensures_C03_decodes_back(comm_addr, cmd, offset, value, result):
+        return (len(result) == 12 and be16(result[2:4]) == 0 and be16(result[4:6]) == len(result) - 6
+                and result[6] == comm_addr and result[7] == cmd
+                and be16(result[8:10]) == offset and be16(result[10:12]) == value % 65536)
+
+    def samples():
+        return [(0xf7, 3, 0x88b8, 0x21), (0xf7, 6, 0xb798, -2), (0, 6, 0, -32768), (255, 16, 65535, 32767)]
+
+
+@contract("goodwe.modbus.create_modbus_rtu_multi_request")
+class CreateRtuMulti:
+    props = ("C03",)
+    args = {"comm_addr": "int", "cmd": "int", "offset": "int", "values": "bytes"}
+    returns = "bytes"
+    pure = True
+    raises_only = ()
+
+    def requires(comm_addr, cmd, offset, values):
+        return multi_domain(comm_addr, cmd, offset, values)
+
+    def ensures_C03_decodes_back(comm_addr, cmd, offset, values, result):
+        n = len(values)
+        return (len(result) == 9 + n and result[0] == comm_addr and result[1] == cmd
+                and be16(result[2:4]) == offset and be16(result[4:6]) * 2 == n and result[6] == n
+                and same_bytes(result[7:7 + n], values)
+                and result[7 + n] + 256 * result[8 + n] == CRC16(result[0:7 + n]))
+
+    def samples():
+        return [(0xf7, 16, 0xb798, b"\x08\x07\x06\x05"), (1, 16, 0, bytes(range(246))), (0, 16, 65535, b"\xff\xff")]
+
+
+@contract("goodwe.modbus.create_modbus_tcp_multi_request")
+class CreateTcpMulti:
+    props = ("C03",)
+    args = {"comm_addr": "int", "cmd": "int", "offset": "int", "values": "bytes"}
+    returns = "bytes"
+    pure = True
+    raises_only = ()
+
+    def requires(comm_addr, cmd, offset, values):
+        return multi_domain(comm_addr, cmd, offset, values)
+
+    def ensures_C03_decodes_back(comm_addr, cmd, offset, values, result):
+        n = len(values)
+        return (len(result) == 13 + n and be16(result[2:4]) == 0 and be16(result[4:6]) == len(result) - 6
+                and result[6] == comm_addr and result[7] == cmd
+                and be16(result[8:10]) == offset and be16(result[10:12]) * 2 == n and result[12] == n
+                and same_bytes(result[13:13 + n], values))
+
+    def samples():
+        return [(0xf7, 16, 0xb798, b"\x08\x07\x06\x05"), (1, 16, 0, bytes(range(246))), (0, 16, 65535, b"\xff\xff")]
